@@ -182,3 +182,11 @@ Fixpoint last_time (l : list tr) (acc : Z) : Z :=
 Definition time_bound (c : tcase) : Z :=
   Z.of_nat (List.length (fst (expected c))) * (Z.of_nat (S (t_retries c)) * (tmo (t_cfg c) + t_proc c)).
 Definition within_time (c : tcase) (l : list tr) : bool := last_time l 0 <=? time_bound c.
+
+(* the hypotheses of the transfer theorems (MonitorProofs.valid) as a boolean, so that the driver can say for
+   every evaluated case whether the theorems speak about it (MonitorProofs.validb_valid) *)
+Definition validb (c : tcase) : bool :=
+  negb (retry_fallthrough (t_v c)) && negb (errcode_raises (t_v c)) && negb (late_recv (t_v c)) &&
+  negb (blksize_drop_over_max (t_nv c)) && negb (tsize_ignores_pos (t_nv c)) &&
+  negb (t_na_always_skip c) &&
+  (1 <=? max_bs (t_limits c))%N && (1 <=? default_tmo (t_limits c))%N && (0 <=? t_proc c).
